@@ -414,6 +414,14 @@ pipeline::~pipeline() {
     while( first_filter ) {
         d1::base_filter* f = first_filter;
         if( input_buffer* b = f->my_input_buffer ) {
+            // Items still parked in the buffer (the pipeline was cancelled) are owned by nobody else
+            for( Token i = 0; i < b->array_size; ++i ) {
+                task_info& info = b->array[i];
+                if( info.is_valid && info.my_object ) {
+                    f->finalize(info.my_object);
+                    info.is_valid = false;
+                }
+            }
             b->~input_buffer();
             deallocate_memory(b);
         }
